@@ -125,7 +125,7 @@ class World:
 
 
 def execute(sc, ctx):
-    m, twin = Model(), Model()
+    m, twin = Model(seed=20260927), Model(seed=20260927)
     w, wt = World(m, sc), World(twin, sc)
     ref = RefSched()
     systems = sc["systems"]
